@@ -71,10 +71,10 @@ def run(ctx):
     if ctx.tier == "quick":
         runs.append(("q221", cfg_text("LiskBFTTree_q", DumpEvery=400, DumpFinalEvery=20), hc221, dict(timeout=900)))
     else:
-        runs.append(("t221", cfg_text("LiskBFTTree_q", MaxBlocks=10, MaxHeight=7, DumpEvery=3000, DumpFinalEvery=150), hc221, dict(timeout=3000)))
+        runs.append(("t221", cfg_text("LiskBFTTree_q", MaxBlocks=10, MaxHeight=7, DumpEvery=3000, DumpFinalEvery=150), hc221, dict(timeout=3000)))   # 6.0 M states
         runs.append(("t221pc2", cfg_text("LiskBFTTree_q", InitPCT=2, MaxBlocks=9, MaxHeight=7, DumpEvery=2000, DumpFinalEvery=150),
                      dict(hc221, initPCT=2), dict(timeout=3000)))
-        runs.append(("t1111", cfg_text("LiskBFTTree_q", NVal=4, Win=12, Byz="{4}", InitW="W1111", InitPCT=3, MaxBlocks=9, MaxHeight=6,
+        runs.append(("t1111", cfg_text("LiskBFTTree_q", NVal=4, Win=12, Byz="{4}", InitW="W1111", InitPCT=3, MaxBlocks=8, MaxHeight=6,
                                        DumpEvery=3000, DumpFinalEvery=150),
                      dict(nval=4, win=12, initW=[1, 1, 1, 1], initPCT=3, choices=[], byz=[4]), dict(timeout=3000)))
         runs.append(("tnoncontra", cfg_text("LiskBFTTree_q", HonestMode='"noncontra"', MaxBlocks=8, MaxHeight=6, DumpEvery=3000, DumpFinalEvery=150),
@@ -82,8 +82,8 @@ def run(ctx):
         runs.append(("tchg", cfg_text("LiskBFTTree_q", ParamChoices="Choices221", MaxChg=1, MaxBlocks=8, MaxHeight=6, DumpEvery=3000, DumpFinalEvery=150),
                      dict(hc221, choices=choices221), dict(timeout=3000)))
         # deeper than the exhaustive bounds, window shorter than the chain (pruning of the window is exercised)
-        runs.append(("sim", cfg_text("LiskBFTTree_q", Win=6, MaxBlocks=16, MaxHeight=13, DumpEvery=4, DumpFinalEvery=1),
-                     dict(hc221, win=6), dict(timeout=900, simulate=3000 if ctx.tier == "thorough" else 300, depth=20, workers=1)))
+        runs.append(("sim", cfg_text("LiskBFTTree_q", Win=9, MaxBlocks=18, MaxHeight=15, DumpEvery=4, DumpFinalEvery=1),
+                     dict(hc221, win=9), dict(timeout=900, simulate=3000 if ctx.tier == "thorough" else 300, depth=20, workers=1)))
     total = dict(trees=0, distinct_paths=0, steps=0, paths_with_finality=0, pairs_checked=0)
     samples = []
     for name, text, hcfg, kw in runs:
